@@ -51,9 +51,9 @@ def obligations(tier):
     RM = ['htp_log']
     nn = {1: 'pos_int_ws', 2: 'status', 3: 'content_length', 4: 'chunked_length', 5: 'protocol'}
     for f, nm in nn.items():
-        for n, t in ((8 if f in (4, 5) else 6, 'quick'), (10, 'thorough')):
+        for n, t in (((10 if f == 4 else 8) if f in (4, 5) else 6, 'quick'), (10 if f != 4 else 12, 'thorough')):
             if f == 5 and t == 'thorough': continue
             obs.append(Ob('num.%s.N%d' % (nm, n), 'C17/numparse.c', units=U, models=['@log_stub.c', '@libc_model.c'], remove=RM, defines={'FUNC': f, 'N': n}, unwind=n + 3, tier=t, timeout=900, mem_gb=6,
-                          solver='kissat' if t == 'thorough' else None,
+                          solver='kissat' if (t == 'thorough' or f == 4) else None,
                           statement='%s parser returns exactly the mathematical value / documented error' % nm, bounds='<= %d bytes, all byte values' % n))
     return obs
